@@ -15,8 +15,11 @@ ID = "C19"
 P = "Webauthn.Props.C19."
 THEOREMS = [P + n for n in ("hierarchy", "vocabulary", "parsers_reg", "parsers_auth", "parsers_authdata", "parsers_cbor",
                             "semantic_auth", "never_returns_unverified", "semantic_reg", "fmt_none_in_hierarchy",
-                            "fmt_unknown_in_hierarchy")]
-LEAN_TARGETS = ["Props.C19"]
+                            "fmt_unknown_in_hierarchy", "fmt_packed_in_hierarchy", "fmt_apple_in_hierarchy", "fmt_u2f_in_hierarchy",
+                            "fmt_android_key_in_hierarchy", "fmt_tpm_in_hierarchy", "fmt_safetynet_in_hierarchy")] + \
+           ["Webauthn.sigPlan_fail"]
+LEAN_TARGETS = ["Props.C19", "Props.C19Formats"]
+AUDIT_IMPORTS = ["Props.C19Formats"]
 SPEC_FILES = ["Spec/Core.lean"]
 ASSUMPTIONS = ["tie direction: whenever the model says 'library exception' the real code raises a subclass of the real base class",
                "malformed (not well-formed) responses may raise other exceptions; the property is about semantic rejections of well-formed ones"]
